@@ -81,7 +81,7 @@ var c11ErrTexts = map[string][]string{
 	"wire":     {"a+b&error=x#frag?q=1", "state=evil&code=1", "\"quoted\" <b>&amp;</b>", "line1 / line2 = 3"},
 }
 
-var c11ErrClasses = []string{"nopct", "pct-verb", "pct-verb", "pct-bang", "pct-pct", "pct-tail", "utf8", "wire"}
+var c11ErrClasses = []string{"nopct", "pct-verb", "pct-verb", "pct-bang", "pct-pct", "pct-tail", "utf8", "wire", "long", "long"}
 
 type c11SrcErr struct {
 	kind, class string // kind: plain | wrapf | oidc | wrap-oidc
@@ -94,7 +94,23 @@ type c11SrcErr struct {
 
 func c11DrawErr(r *hx.Rand) c11SrcErr {
 	class := c11ErrClasses[r.Intn(len(c11ErrClasses))]
-	text := c11ErrTexts[class][r.Intn(len(c11ErrTexts[class]))]
+	text := ""
+	if class == "long" {
+		// a long message (a driver error with the statement in it, a wrapped chain): lengths at the boundaries of c11len.go,
+		// multi-byte characters straddling them
+		B := c11LenBounds[r.Intn(5)]
+		fill := hx.Pick(r, "ascii", "mb2", "mb3", "mb4", "html", "space")
+		switch r.Intn(3) {
+		case 0:
+			text = c11LenBuild(r, B+r.Intn(3)-1, c11LenRaw, fill)
+		case 1:
+			text = c11LenBuild(r, B+r.Intn(3)-1, c11LenEnc, fill)
+		default:
+			text, _ = c11LenStraddle(r, B, fill)
+		}
+	} else {
+		text = c11ErrTexts[class][r.Intn(len(c11ErrTexts[class]))]
+	}
 	e := c11SrcErr{class: class, text: text}
 	oauth := func(d string) *oidc.Error {
 		// a storage that answers with an OAuth error of its own (fields set directly: the builders are printf-like)
